@@ -974,6 +974,20 @@ impl World {
                 if status == 200 || self.s.agent.subs_manager().get(&sub.id).is_some() {
                     let expected = self.query_node(&sub.sql).await?;
                     let got = self.materialised(sub.id).await?;
+                    if got.as_ref().is_some_and(|g| *g != expected) && state.as_deref() == Some("completed") {
+                        // open finding (known_findings.jsonl): the expiry path shares the graceful
+                        // path's cancellation, so the loop ends by marking itself 'completed'
+                        let sig = "C13:expired-subscription-restored-from-stale-state";
+                        if !self.known_hits.iter().any(|h| h == sig) {
+                            self.known_hits.push(sig.to_string());
+                        }
+                        self.stats.probe("c13.known.expired-subscription-restored-stale");
+                        // it lives on in the node under its SQL: nothing more is judged about it
+                        sub.cancelled = false;
+                        sub.dead = true;
+                        self.subs.push(sub);
+                        continue;
+                    }
                     if got.as_ref().is_some_and(|g| *g != expected) {
                         return Ok(Err(vio(
                             "C13",
